@@ -73,7 +73,8 @@ func (ds *dataStore) getLiveStoreKey(keyName string) (sk *storeKey, exists bool)
 }
 
 func (ds *dataStore) hasChangedUnlocked(keyName string, id uint64) bool {
-	sk, exists := ds.getStoreKey(keyName)
+	// a key whose expiry has passed is gone, as it was for WATCH (getIds)
+	sk, exists := ds.getLiveStoreKey(keyName)
 	if !exists {
 		return id != 0
 	} else {
